@@ -91,6 +91,26 @@ Theorem C09_get_set_roundtrip_partial : forall e c,
 Proof. exact get_set_roundtrip_partial. Qed.
 Print Assumptions C09_get_set_roundtrip_partial.
 
+(* The same with a decidable guard, in the form "replay (get c) = c":
+   guard = the device has a private key, or no peer has the all-zero public
+   key; [config_of] is (private key, port, fwmark, peers in order with their
+   prefixes in order); [replay] = ipc_set on a fresh (down) device of the get
+   output. *)
+Theorem C09_get_set_roundtrip_guarded : forall e c,
+  env_ok e -> reachable e c -> roundtrip_guard c = true ->
+  snd (replay e c) = 0%Z /\ config_of (fst (replay e c)) = config_of c.
+Proof. exact get_set_roundtrip_guarded. Qed.
+Print Assumptions C09_get_set_roundtrip_guarded.
+
+(* The guard is exact: wherever it fails (no private key and a peer with the
+   all-zero key) the replay has no such peer, so the roundtrip fails. *)
+Theorem C09_get_set_roundtrip_guard_exact : forall e c,
+  env_ok e -> reachable e c -> roundtrip_guard c = false ->
+  has_peer 0 (c_peers c) = true /\ has_peer 0 (c_peers (fst (replay e c))) = false /\
+  config_of (fst (replay e c)) <> config_of c.
+Proof. exact get_set_roundtrip_guard_exact. Qed.
+Print Assumptions C09_get_set_roundtrip_guard_exact.
+
 (* the faithful model refutes the full statement (private_key=K; private_key=0;
    public_key=0...0): candidate defect, see notes/C09.md *)
 Theorem C09_get_set_roundtrip_refuted : ~ C09_get_set_roundtrip_statement.
@@ -108,6 +128,11 @@ Theorem C09_model_refines_spec : forall e ops,
   mview (final (step e) fresh ops) = view (final (sem_step e) afresh ops).
 Proof. exact model_refines_spec. Qed.
 Print Assumptions C09_model_refines_spec.
+
+(* (this is the Definition model_refines_spec_statement of Uapi/Proofs.v) *)
+Theorem C09_model_refines_spec_statement_holds : model_refines_spec_statement.
+Proof. exact model_refines_spec_statement_holds. Qed.
+Print Assumptions C09_model_refines_spec_statement_holds.
 
 (* Value syntax: what get prints, set reads back. *)
 Theorem C09_value_syntax_roundtrip : forall n k,
@@ -146,4 +171,24 @@ Example C09_nonvacuous_history :
   let c := final (step nv_env) fresh nv_ops in
   map pr_key (c_peers c) = [100] /\ c_port c = 0 /\ c_pub c = 72 /\
   map pr_ips (c_peers (final (step nv_env) fresh (firstn 1 nv_ops))) = [[]; [mask nv_pfx]].
+Proof. vm_compute. repeat split; reflexivity. Qed.
+
+(* The roundtrip guard is met by non-trivial configurations: a keyed device
+   with a peer, port 0 after a failed bind (end of the history above); and a
+   device WITHOUT private key with two peers, a moved prefix, an endpoint, a
+   keepalive, port and fwmark -- and the replay reproduces them; the guard
+   fails on the refuting history. *)
+Definition rt_ops : list op :=
+  [OSet [LText KListenPort [55]; LText KFwmark [57];
+         LText KPublicKey (hex64 100); LAllowedIp false (Some nv_pfx); LEndpoint (Some 3);
+         LText KPublicKey (hex64 72); LAllowedIp false (Some nv_pfx);
+         LAllowedIp false (Some {| p_v6 := true; p_addr := 1; p_bits := 128 |});
+         LText KKeepalive [50;53]; LText KPresharedKey (hex64 5)]].
+Example C09_roundtrip_guard_nonvacuous :
+  roundtrip_guard (final (step nv_env) fresh nv_ops) = true /\
+  (let c := final (step nv_env) fresh rt_ops in
+   roundtrip_guard c = true /\ c_priv c = 0 /\ map pr_key (c_peers c) = [100; 72] /\
+   map (fun p => length (pr_ips p)) (c_peers c) = [0; 2]%nat /\
+   replay nv_env c = (c, 0%Z)) /\
+  roundtrip_guard (final (step refute_env) fresh refute_ops) = false.
 Proof. vm_compute. repeat split; reflexivity. Qed.
